@@ -240,6 +240,8 @@ func runC17(c *Ctx, r *Rec) {
 		switch {
 		case len(viol) > 0:
 			r.fail("D1-cursor", construct, c.pos(fd.Pos()), strings.Join(dedup(viol), " | "))
+		case onlyForeign(undec):
+			r.skip("D1-cursor", construct, c.pos(fd.Pos()), strings.Join(dedup(undec), " | "))
 		case len(undec) > 0:
 			r.undecided("D1-cursor", construct, c.pos(fd.Pos()), strings.Join(dedup(undec), " | "))
 		default:
